@@ -682,8 +682,20 @@ func c12ExecF(in []string) []string {
 			return resp, nil
 		})
 	} else {
-		rtr = client.New(host, "/", []string{"http"})
-		rtr.Transport = wire
+		// three ways of giving the Runtime its wire (EnableConnectionReuse treats them differently):
+		// Runtime.Transport; a preset http.Client with the transport; a preset http.Client without one
+		// (the last one reaches Runtime.Transport only through EnableConnectionReuse)
+		v := (p.form + len(p.files) + p.readN) % 3
+		switch {
+		case v == 1:
+			rtr = client.NewWithClient(host, "/", []string{"http"}, &http.Client{Transport: wire})
+		case v == 2 && p.reuse:
+			rtr = client.NewWithClient(host, "/", []string{"http"}, &http.Client{})
+			rtr.Transport = wire
+		default:
+			rtr = client.New(host, "/", []string{"http"})
+			rtr.Transport = wire
+		}
 	}
 	rtr.Context = rtCtx
 	rtr.Debug = false
